@@ -1,12 +1,13 @@
 (* Extraction of the executable io model (msgpack codec, generic grammar, file format).
    Directives: those of ExtrOcamlBasic only. *)
 From Coq Require Import Extraction ExtrOcamlBasic NArith ZArith List.
-From PV Require Import Base.U32 Base.Err Shape.ShapeImpl Msgpack.Codec Msgpack.Generic Msgpack.FileFormat.
+From PV Require Import Base.U32 Base.Err Shape.ShapeImpl Msgpack.Codec Msgpack.Generic Msgpack.FileFormat Msgpack.BigFile.
 Extraction Language OCaml.
 Extraction "../ocaml/gen/io_model.ml"
   be le len take rd_n
   w_nil r_nil w_bool r_bool w_u8 r_u8 w_u16 r_u16 w_u32 r_u32 w_u64 r_u64
   w_i8 r_i8 w_i16 r_i16 w_i32 r_i32 w_i64 r_i64 w_f32 r_f32 w_f64 r_f64
+  str_hdr bin_hdr ext_hdr arr_hdr map_hdr param_file_prefix
   w_str r_str w_bin r_bin w_ext r_ext w_vec r_vec w_map r_map
   bytes_eqb assoc dedup_first
   Generic.parse1 Generic.parse_all Generic.int_value
